@@ -16,13 +16,15 @@ PYTHONPATH=$wt /venv/bin/python demo_$k.py >/tmp/demo_without.txt 2>&1; without=
 echo "suite: $suite | demo with change: exit $with | without: exit $without"
 mkdir -p $out; cp mutation_$k.diff $out/patch.diff; cp demo_$k.py $out/demo.py
 cd /verif
+# FULL=1: run the whole check (translator + lake build + audit), not only the streams (--no-build)
+nobuild=--no-build; [ -n "${FULL:-}" ] && nobuild=
 # COPY=1: run the checks against a scratch copy of /repo (when other jobs are reading /repo) instead of /repo itself
 if [ -n "${COPY:-}" ]; then
   target=/tmp/priv_confirm_$$; rm -rf $target; cp -r /repo $target
-  runcheck() { PYGAM_REPO=$target PYTHONPATH=/verif:$target /venv/bin/python -m harness.main $1 --tier quick --no-build 2>&1; }
+  runcheck() { PYGAM_REPO=$target PYTHONPATH=/verif:$target /venv/bin/python -m harness.main $1 --tier quick $nobuild 2>&1; }
 else
   target=/repo
-  runcheck() { ./check $1 --no-build 2>&1; }
+  runcheck() { ./check $1 $nobuild 2>&1; }
 fi
 git -C $target apply $out/patch.diff || { echo "patch does not apply to $target"; [ -n "${COPY:-}" ] && rm -rf $target; exit 1; }
 res=""
@@ -31,5 +33,6 @@ for c in $checks; do
   res="$res [$c: $line]"
 done
 if [ -n "${COPY:-}" ]; then rm -rf $target; else git -C /repo checkout -q -- .; fi
+[ -n "${FULL:-}" ] && python3 tools/translate.py >/dev/null 2>&1   # Gen/*.lean back to /repo's source
 echo "checks:$res"
 echo "{\"suite\": \"$suite\", \"demo_exit_with_change\": $with, \"demo_exit_without\": $without, \"checks\": \"$(echo $res | sed 's/"/\\"/g')\"}" > $out/run.json
